@@ -30,21 +30,32 @@ def closure(prog, root):
 
 def const_args_at(prog, caller, callee_q):
     """Constant arguments (by callee parameter name) at the unique call of callee_q in caller."""
+    r = const_args_at_all(prog, caller, callee_q)
+    if len(r) != 1:
+        raise AnalysisBroken('%s: expected one call of %s, found %d' % (caller.q, callee_q, len(r)))
+    return r[0]
+
+
+def const_args_at_all(prog, caller, callee_q):
+    """[(constant arguments by callee parameter name, callee)] for every call of callee_q in caller, in source order."""
     cs = [c for c in calls(caller) if (c.get('callee') or {}).get('q') == callee_q]
-    if len(cs) != 1:
-        raise AnalysisBroken('%s: expected one call of %s, found %d' % (caller.q, callee_q, len(cs)))
-    callee = prog.by_sig(cs[0]['callee']['sig'])
+    if not cs:
+        raise AnalysisBroken('%s: no call of %s' % (caller.q, callee_q))
     g = G.GuardScan(prog, caller, {})
-    out = {}
-    for p, a in zip(callee.params, cs[0]['args']):
-        a = strip_casts(g.subst(a))
-        neg = False
-        if a.get('k') == 'Un' and a['op'] == '-':
-            neg = True
-            a = strip_casts(a['e'])
-        if a.get('k') == 'Lit' and a['lk'] == 'int':
-            out[p['name']] = -int(a['v']) if neg else int(a['v'])
-    return out, callee
+    res = []
+    for c in cs:
+        callee = prog.by_sig(c['callee']['sig'])
+        out = {}
+        for p, a in zip(callee.params, c['args']):
+            a = strip_casts(g.subst(a))
+            neg = False
+            if a.get('k') == 'Un' and a['op'] == '-':
+                neg = True
+                a = strip_casts(a['e'])
+            if a.get('k') == 'Lit' and a['lk'] == 'int':
+                out[p['name']] = -int(a['v']) if neg else int(a['v'])
+        res.append((out, callee))
+    return res
 
 
 def check(prog, ctx):
@@ -66,9 +77,9 @@ def check(prog, ctx):
         st = static_locals(fn)
         if not st:
             continue
-        consts = {}
+        entries = [{}]
         if fn.q == L + 'Integrate_MC_Vegas':
-            consts, _ = const_args_at(prog, mc, fn.q)
+            entries = [c_ for c_, _ in const_args_at_all(prog, mc, fn.q)]
         tracked = {d['id']: d['name'] for d in st}
 
         def summary(call, idx, prog=prog):
@@ -78,22 +89,32 @@ def check(prog, ctx):
                 return 'R'
             return byref_first_access(prog, g, idx)
         arrays = [d['id'] for d in st if d['ty'].startswith('std::vector') or d['ty'] in (L + 'Matrix', L + 'Vector')]
-        da = DefAssign(prog, fn, tracked, consts, summary, arrays)
-        early = da.run()
-        ctx.notes.append('%s: array initialisation loops assumed to cover the indices read later: %s' % (fn.name, da.loop_inits))
-        by = {}
-        for name, node, why in early:
-            by.setdefault(name, []).append((node, why))
-        for d in st:
-            nstat += 1
-            inst = '%s:static:%s' % (fn.name, d['name'])
-            if d['name'] in by:
-                node, why = by[d['name']][0]
-                ctx.violated('C14.a', inst, fn, 'static `%s` is read (%s, line %s) before anything in this call assigned it: its value is '
-                             'whatever an earlier integration left behind' % (d['name'], why, node.get('l')),
-                             witness={'first_early_read_line': node.get('l'), 'entry_constants': consts}, line=d.get('l'))
-            else:
-                ctx.holds('C14.a', inst, fn, 'assigned on every path before its first read (entry constants %s)' % consts, line=d.get('l'))
+        for ncall, consts in enumerate(entries):
+            if ncall > 0 and consts.get('init', 0) > 0:
+                # a continuation run: its statics were assigned by the earlier stage of the same top-level call, so it does not
+                # depend on earlier integrations - but whether an estimate taken on an inherited, adapted grid still integrates
+                # constants exactly and reports a valid error is not decided by these rules
+                ctx.undecided('C14.a', '%s:continuation@call%d' % (fn.name, ncall + 1), mc,
+                              'Integrate_MC runs Vegas in stages (call %d of %d enters with init=%s on the grid left by the stage before): '
+                              'a multi-stage estimate is outside the understood fragment' % (ncall + 1, len(entries), consts.get('init')))
+                continue
+            da = DefAssign(prog, fn, tracked, consts, summary, arrays)
+            early = da.run()
+            ctx.notes.append('%s: array initialisation loops assumed to cover the indices read later: %s' % (fn.name, da.loop_inits))
+            by = {}
+            for name, node, why in early:
+                by.setdefault(name, []).append((node, why))
+            for d in st:
+                nstat += 1
+                inst = '%s:static:%s' % (fn.name, d['name']) + ('' if ncall == 0 else '@call%d' % (ncall + 1))
+                if d['name'] in by:
+                    node, why = by[d['name']][0]
+                    ctx.violated('C14.a', inst, fn, 'static `%s` is read (%s, line %s) before anything in this call assigned it: its value is '
+                                 'whatever an earlier integration left behind%s' % (d['name'], why, node.get('l'),
+                                 '' if len(entries) == 1 else ' (call %d of %d from Integrate_MC, entry constants %s)' % (ncall + 1, len(entries), consts)),
+                                 witness={'first_early_read_line': node.get('l'), 'entry_constants': consts}, line=d.get('l'))
+                else:
+                    ctx.holds('C14.a', inst, fn, 'assigned on every path before its first read (entry constants %s)' % consts, line=d.get('l'))
     # namespace-scope mutable objects used in the closure
     glob = {}
     for fn in cl:
